@@ -94,6 +94,10 @@ Ltac stuck1 :=
   match goal with
   | |- context [match ?x with _ => _ end] => is_var x; destruct x
   | |- context [if ?x then _ else _] => is_var x; destruct x
+  | |- context [if Nat.eqb ?a ?b then _ else _] => destruct (Nat.eqb a b) eqn:?
+  | |- context [if conn_connected ?a ?b then _ else _] => destruct (conn_connected a b) eqn:?
+  | |- context [if c_closing ?a then _ else _] => destruct (c_closing a) eqn:?
+  | |- context [if c_disc ?a then _ else _] => destruct (c_disc a) eqn:?
   end.
 
 Ltac sym := cbn; repeat (first [stuck1 | unf1]; cbn).
